@@ -277,6 +277,30 @@ PROPS["C06"] = dict(
     assumptions=ASSUME_COMMON,
 )
 
+PROPS["C11"] = dict(
+    units=[dict(name="c11", src="props/c11.cpp", deps=["lib/pwc.hpp"], compilers=["g++", "clang++"], fuzz=dict(seconds=60))],
+    rule="case = numeric type x 1..3 distributions (1-d / 2-d, 1..12 bins per axis, ranges unit / negative / quarter "
+         "steps / tiny 10^-30 (float 10^-8) / huge 10^30 (float 10^8) / narrow far from 0 / generated); (A) every "
+         "candidate coordinate - each edge min + k size and its two neighbours, interior points, x_max, just below x_min, "
+         "far outside with quotients 2^31..2^100 on both sides, max, lowest, +-inf, NaN, generated - is fed one call at a "
+         "time (x candidates with interior y, then y candidates); (B) 2/3 of the cases: a 20..420 call PLAIN / VEGAS / "
+         "multi-channel iteration compared bin by bin with separate integrations; built with g++ and clang++; non-trivial: "
+         "a coordinate on an edge or outside the range and >= 2 bins filled; distinct = distinct description",
+    quick=dict(shards=4, cases=600),
+    thorough=dict(shards=8, cases=40000),
+    floors={"differential": 0.4, "2d": 0.3, "several-distributions": 0.4},
+    level_text="(A) placement model: floor((x - min) / size) in long double decides the bin (x fastest, then y); a "
+               "coordinate within 4 eps (|x| + |min|) of an edge may go to either neighbour, anything outside, +-inf and "
+               "NaN to no bin; the value arrives as value / area; mid-points lie inside their bins; (B) differential: "
+               "each bin's sum, sum of squares, value, variance equal those of integrating f x 1[bin] / area with the "
+               "same random numbers (16-64 eps with conditioning), calls equal the iteration's, bins x areas add up to "
+               "the integrand restricted to the range; exploration over generated inputs",
+    level_note="trusted: the long double floor model and the indicator integrands of the harness; built with both "
+               "compilers because float -> integer conversion of out-of-range values differs between them",
+    technique="rapidcheck (g++ and clang++ builds) + libFuzzer over choice tapes; placement model + differential against separate integrations",
+    assumptions=ASSUME_COMMON,
+)
+
 NOT_APPLICABLE = {}
 
 ENGINES = [
